@@ -11,7 +11,7 @@
     Oriented regions: the limits of an axis may descend; [mins]/[maxs] are the smaller/larger limit of every axis (the box spanned by the limits),
     [descending lo hi] counts the axes with descending limits. *)
 From Coq Require Import Reals ZArith List.
-From LP Require Import Num NumR C13_Model C14_Model C14_Proofs C14_Proofs_Hist C14_Proofs_Orient.
+From LP Require Import Num NumR C13_Model C14_Model C14_Proofs C14_Proofs_Hist C14_Proofs_Orient C14_Proofs_Rebin.
 Import ListNotations.
 Local Open Scope R_scope.
 
@@ -203,3 +203,43 @@ Theorem C14_spherical_front_end (I : backend -> (R -> res R) -> R -> R -> res R)
        [r1; c1; phi1; r2; c2; phi2] (if (p =? 0)%Z then 30000%Z else p).
 Proof. exact (spherical_front_end I MC m F r1 r2 c1 c2 phi1 phi2 p). Qed.
 Print Assumptions C14_spherical_front_end.
+
+(** "evaluate the integrand only at points inside the given hyper-rectangle", Vegas, all iterations.  The sampling map stays inside the region as long as
+    every grid row increases from >= 0 to <= 1 (C14_vegas_point_inside); the grid is rewritten by Rebin at the end of every iteration.
+    Rebin in general ([psum r k] = r[0] + ... + r[k-1]): for ANY positive weights r[0..nd) and rc = their mean, Rebin(rc, nd, r, xin, xi, j) comes to an end,
+    reads r and xi[j] only inside their nd entries in use (the outcome is [Ok], not [OOB] / [Fuel]), leaves an increasing row in [0,1] whose last entry in use
+    is 1, and keeps the entries beyond nd (the hypotheses are satisfiable: rebin_example). *)
+Theorem C14_vegas_rebin_keeps_grid (n : nat) (r row : list R) :
+  (2 <= n)%nat -> length r = n -> Forall (fun x => 0 < x) r -> (n <= length row)%nat -> grid_ok (firstn n row) ->
+  exists row', rebin ROps (psum r n / INR n) (Z.of_nat n) r row = Ok row' /\
+               length row' = length row /\ grid_ok (firstn n row') /\ nth (n - 1) row' 0 = 1 /\ skipn n row' = skipn n row.
+Proof. exact (rebin_keeps_grid n r row). Qed.
+Print Assumptions C14_vegas_rebin_keeps_grid.
+
+(** The refinement step of an iteration (smoothing of d, the weights pow(..., ALPH) — positive over the reals —, Rebin per axis, or "no signal: keep the row")
+    never fails and maps grids to grids, whatever was accumulated in d. *)
+Theorem C14_vegas_refine_keeps_grid (s : @vstate R) (n : nat) : (2 <= n)%nat -> v_nd s = Z.of_nat n -> v_xnd s = INR n ->
+  forall d rows, length d = length rows -> Forall (fun col => length col = n) d -> Forall (fun row => grid_ok row /\ length row = n) rows ->
+  exists rows', vegas_refine ROps s d rows = Ok rows' /\ length rows' = length rows /\ Forall (fun row => grid_ok row /\ length row = n) rows'.
+Proof. exact (vegas_refine_keeps_grid s n). Qed.
+Print Assumptions C14_vegas_refine_keeps_grid.
+
+(** Invariant over any number of iterations ([vlive_ok]: nd = n bins in 2..50, ng >= 1 strata, dxg = nd/ng, every row in use a grid, widths dx >= 0): two integrands
+    that agree on the box {region[j], region[j] + dx[j]} give the same value, the same statics and the same position in the stream after itmx iterations, for every
+    stream with values in (0,1) — the integrand is looked at only inside the box, on the refined grids as well. *)
+Theorem C14_vegas_iterations_points_inside (us : Z -> R) : (forall k, 0 < us k < 1) -> forall region dxs f f',
+  (forall pt, cbox (lows region) (map (fun q => fst q + snd q) (combine (lows region) dxs)) pt -> f pt = f' pt) ->
+  forall n itmx s integral pos, vlive_ok region dxs n s ->
+  vegas_iterations ROps us itmx f s region integral pos = vegas_iterations ROps us itmx f' s region integral pos.
+Proof. exact (vegas_iterations_points_inside us). Qed.
+Print Assumptions C14_vegas_iterations_points_inside.
+
+(** The whole call as Integrate_MC makes it (init = 0), from whatever statics earlier calls left behind, for 1..10 dimensions and budgets >= 2:
+    the initialisation establishes the invariant (uniform grid, nd in 2..50, ng >= 1), so Vegas' value and the statics it leaves depend on the integrand
+    only through its values inside the region (hypotheses satisfiable: vegas_call_example, stream_example). *)
+Theorem C14_vegas_points_inside (us : Z -> R) : (forall k, 0 < us k < 1) -> forall s f f' region ncalls,
+  wf_statics s -> (1 <= rdim region <= 10)%nat -> (2 <= ncalls)%Z -> ordered (lows region) (highs region) ->
+  (forall pt, cbox (lows region) (highs region) pt -> f pt = f' pt) ->
+  integrate_mc ROps us s M_Vegas f region ncalls = integrate_mc ROps us s M_Vegas f' region ncalls.
+Proof. exact (integrate_mc_vegas_points_inside us). Qed.
+Print Assumptions C14_vegas_points_inside.
